@@ -276,6 +276,20 @@ def site_guarded(sem, vis, bb, fact_pred):
         chain.append("%s lines %s" % (level.body.path, lines))
         if level.parent is None:
             break
+        # a closure handed to `cond.then(..)` runs only when cond holds
+        if level.body.kind == "closure":
+            par, pbb = level.parent
+            for blk in par.body.blocks:
+                t = blk.term
+                if t.kind != "call" or blk.idx not in par.blocks or t.callee.name != "then" or len(t.args) != 2:
+                    continue
+                n = len(blk.stmts)
+                ce = sem.w.ident(par.be.ev_operand(blk.idx, n, t.args[1]), expand_ws=False)
+                if ce.op == "closure" and ce.info == level.body.path:
+                    cond = sem.w.ident(par.be.ev_operand(blk.idx, n, t.args[0]), expand_ws=False)
+                    f0 = sem._norm_bool(cond, True)
+                    if any(fact_pred(f, par.resolve) for f in [f0] + sem.derived_facts(f0)):
+                        return True, "guarded by the condition of `.then(..)` in %s" % par.body.path
         level, site = level.parent
     return False, "unguarded path: " + " <- ".join(chain)
 
